@@ -165,6 +165,7 @@ def analyse_sub(cases, rep, cfg):
     for c in cases:
         for op, xi, xm in zip(c.ops, c.impl, c.model):
             rep.cov['evaluations'] += 1
+            if op == 'mds' and not c.adm: continue
             if xm == 'ub': pred_ub += 1
             if xi == 'ub': obs_ub += 1
             if c.adm and (xi == 'ub' or xi.startswith('died')):
